@@ -877,6 +877,21 @@ have [_ hQ _ _] := composition laws; split=> s t.
 - by move=> ps pt; rewrite hQ; apply: psd_step.
 Qed.
 
+Lemma noise_zero_under_laws : Qd 0 = 0.
+Proof.
+have [h _] := noise_gram_partial.
+have [_ _ h0 _] := transition_invertible laws 0.
+by have := h 0 0; rewrite addr0 h0 mul1mx trmx1 mulmx1 subrr => <-.
+Qed.
+
+(** PSD on one short step h propagates to every multiple k h of it *)
+Theorem noise_psd_multiples (h : F) (k : nat) : psd (Qd h) -> psd (Qd (k%:R * h)).
+Proof.
+move=> ph; elim: k => [|k IH].
+- by rewrite mul0r noise_zero_under_laws => x; rewrite mulmx0 mul0mx mxE.
+- by rewrite mulrS mulrDl mul1r; have [_ hp] := noise_gram_partial; apply: hp.
+Qed.
+
 End NoiseGramPartial.
 
 Section NoiseFirstOrder.
